@@ -44,6 +44,17 @@ Theorem global_wcs_eq_mosaic :
 Proof. exact global_pixelization_grid. Qed.
 Print Assumptions global_wcs_eq_mosaic.
 
+(* ... nor on the order of the inputs: the bounding box (hence width, height,
+   tiling, every segment and the global CRPIX above) is the same for any
+   collection with the same members *)
+Theorem global_order_independent :
+  forall (ax ay : fits_desc -> Z) d0 rest d0' rest',
+  (forall d, In d (d0 :: rest) <-> In d (d0' :: rest')) ->
+  xmin_of ax d0 rest = xmin_of ax d0' rest' /\ ymin_of ay d0 rest = ymin_of ay d0' rest' /\
+  xmax_of ax d0 rest = xmax_of ax d0' rest' /\ ymax_of ay d0 rest = ymax_of ay d0' rest'.
+Proof. exact bbox_order_independent. Qed.
+Print Assumptions global_order_independent.
+
 (* the updates of an input never hit numpy's shape error: one per tuple *)
 Theorem updates_well_shaped :
   forall (V : Type) W H t, study_tiling W H = Some t ->
